@@ -86,6 +86,8 @@ def _is_sym(x):
 
 
 DENOMS = []  # z3 terms of the denominators used by symbolic solves (the harness assumes them non-zero)
+AXIOMS = []  # defining equations of solves done in 'axiom' mode
+SOLVE = {'mode': 'closed', 'n': 0}
 
 
 def solve_linear(Amat, factor, rhs):
@@ -98,6 +100,17 @@ def solve_linear(Amat, factor, rhs):
         return [sum((rhs[j] * Minv[i][j] for j in range(n) if Minv[i][j] != 0), SymReal(0)) for i in range(n)]
     one = SymReal(1)
     M = [[(one if i == j else SymReal(0)) - factor * Amat[i][j] for j in range(n)] for i in range(n)]
+    if SOLVE['mode'] == 'axiom' and n >= 2:
+        # the solution is a vector of fresh variables DEFINED by (I - factor A) w = rhs (unique because the system is assumed non-singular):
+        # keeps the queries polynomial instead of rational functions with symbolic determinants
+        SOLVE['n'] += 1
+        w = [SymReal(z3.Real(f'w!{SOLVE["n"]}!{i}')) for i in range(n)]
+        for i in range(n):
+            acc = M[i][0] * w[0]
+            for j in range(1, n):
+                acc = acc + M[i][j] * w[j]
+            AXIOMS.append(R(acc) == R(rhs[i]))
+        return w
     if n == 1:
         DENOMS.append(R(M[0][0]))
         return [rhs[0] / M[0][0]]
